@@ -807,6 +807,9 @@ def r2_6(prog, rep):
             rep.bad("R2.6", where, fnq, construct,
                     "the overload builds a different term set than the documented algebra - expected "
                     + "; ".join(f"[{c}] {v}" for c, v in missing) + " - found " + "; ".join(f"[{c}] {v}" for c, v in extra))
+    # a hoisted `product(...)` is an iterator: consumed twice, the second expansion is empty
+    from . import shared as _sh
+    _sh.one_shot_iterators(prog, rep, "R2.6", modules={"formulae.terms.terms"})
     # definitions the summaries rely on: allcomps(X) and ALL(X)
     cc = prog.fn("terms.terms.Model.common_components")
     rets = [n for n in walk_local(cc.node) if isinstance(n, ast.Return)]
